@@ -60,7 +60,8 @@ PROFILE = gen.profile(
     dbg_names=1,
     w_stmt=dict(sync=1.5, syncitem=1.0, raise_=0.3, try_=1.2, with_=1.5, read=0.6, orphan=0.3),
     w_leaf=dict(call=6, item=6, err=0.3, junk=0.05, lazy=0.4, again=0.4, dbg=0.6, const=0.8),
-    lazy_modes=["ok", "ok", "raise"],
+    lazy_modes=["ok", "sync", "sync", "raise"],
+    p_ctx_sync=0.15,
     ctxs=["actx", "ov", "attr"],
     max_instances=80,
 )
